@@ -97,7 +97,12 @@ impl AdtVersion {
         let has_mcin = chunks.contains_key(&ChunkId::MCIN);
         let is_split_root = has_mcnk && !has_mcin;
 
-        if chunks.contains_key(&ChunkId::MTXP) {
+        let has_blend_mesh = [ChunkId::MBMH, ChunkId::MBBB, ChunkId::MBNV, ChunkId::MBMI]
+            .iter()
+            .any(|id| chunks.contains_key(id));
+
+        if chunks.contains_key(&ChunkId::MTXP) || has_blend_mesh {
+            // MTXP and the blend mesh chunks (MBMH/MBBB/MBNV/MBMI) were all introduced in MoP
             Self::MoP
         } else if chunks.contains_key(&ChunkId::MAMP) || is_split_root {
             // Cataclysm: Either has MAMP or is split root file
